@@ -106,6 +106,8 @@ def gen_scn(r, k, forced=None):
         c["eb"] = {"raw": [r.choice([0.0, 0.5, 1.0, 1.0, 2.0, 4.0, 8.0]) for _ in range(nt)], "equil": r.choice([0, 0, 3, 6, 20])}
         if not any(c["eb"]["raw"]):
             c["eb"]["raw"][0] = 1.0
+    c["pmf"] = use_grids and not c["eb"] and r.random() < f.get("p_pmf", 0.2)
+    c["pmf_keep"] = c["pmf"] and r.random() < 0.4
     c["gfreq_explicit"] = use_grids and f.get("gfreq_explicit", r.random() < 0.4)
     c["gfreq"] = f.get("gfreq", r.choice([1, 2, 3, 4, 6])) if c["gfreq_explicit"] else c["freq"]
     c["it0"] = r.randint(0, 9) if r.random() < 0.3 else 0
@@ -215,6 +217,8 @@ def gen_scn(r, k, forced=None):
         boundary = (s > 0) and r.random() < 0.1
         if s > 0 and use_grids and r.random() < p_save:
             events.append(("save",))
+        if s > 0 and c["pmf"] and r.random() < 0.12:
+            events.append(("pmf",))
         if events and events[-1][0] in ("restart", "rebin"):
             boundary = False
         if events and events[-1][0] == "reload":
@@ -300,7 +304,9 @@ def config_text(c, geom=None, rebin=False):
     if not c["use_grids"]:
         L.append("  useGrids off")
     else:
-        L.append("  writeFreeEnergyFile off")
+        L.append("  writeFreeEnergyFile %s" % ("on" if c.get("pmf") else "off"))
+        if c.get("pmf_keep"):
+            L.append("  keepFreeEnergyFiles on")
         if c["gfreq_explicit"]:
             L.append("  gridsUpdateFrequency %d" % c["gfreq"])
         if c["keep"]:
@@ -317,6 +323,9 @@ def config_text(c, geom=None, rebin=False):
     if c.get("eb"):
         L.append("metatarget m")
     return L
+
+
+PMF_TEMP = 300.0
 
 
 def target_file_name(c):
@@ -361,7 +370,10 @@ def scenario_files(c):
 
 def scenario_text(c, dump=True):
     first, natoms = atoms_of(c)
-    L = ["natoms %d" % natoms, "nocell", "new"]
+    L = ["natoms %d" % natoms, "nocell"]
+    if c.get("pmf"):
+        L += ["prefix c05p_%s" % c["id"], "temperature %r" % PMF_TEMP]
+    L.append("new")
     if c["it0"]:
         L.append("setstep %d" % c["it0"])
     L += config_text(c)
@@ -372,6 +384,9 @@ def scenario_text(c, dump=True):
     for e in c["events"]:
         if e[0] == "save":
             L.append("save text c05.state")
+            continue
+        if e[0] == "pmf":
+            L.append("metapmf m")
             continue
         if e[0] == "reload":
             nstate += 1
@@ -428,6 +443,9 @@ def model_case(c, xs, dump=True):
             continue
         if e[0] == "reload":
             p.append("L")
+            continue
+        if e[0] == "pmf":
+            p += ["P", V.hexf(PMF_TEMP)]
             continue
         if e[0] == "rebin":
             p.append("B")
@@ -500,12 +518,21 @@ def parse_impl(c, text):
     cur = None
     target = []
     c["_target_dump"] = target
+    pmfs = []
+    c["_pmf_dump"] = pmfs
     for line in text.split("\n"):
         w = line.split()
         if not w or w[0] in ("TRAJ", "TRAJEND"):
             continue
         if w[0] == "TARGET":
             target.append([fh(t) for t in w[1:]])
+            continue
+        if w[0] == "PMFFILE":
+            pmfs.append([w[1] if len(w) > 1 else "", None])
+            continue
+        if w[0] == "PMF":
+            if pmfs:
+                pmfs[-1][1] = [fh(t) for t in w[1:]]
             continue
         if w[0] == "STEP":
             cur = {"it": int(w[1]), "err": w[2] if len(w) > 2 else "", "cv": [], "af": [], "hills": [], "off": [],
@@ -553,8 +580,12 @@ def parse_model(c, line):
         c["_model_traj"] = parse_hills(c, tr.split())
     else:
         c["_model_traj"] = None
+    c["_model_pmf"] = []
     for rec in line.split(" | "):
         fs = [f.split() for f in rec.split(" ; ")]
+        if fs and fs[0] and fs[0][0] == "P":
+            c["_model_pmf"].append([fh(t) for t in fs[0][1:]])
+            continue
         if not fs or not fs[0] or fs[0][0] != "S":
             return None
         s = {"E": fh(fs[0][1]), "F": split_comps(c, [fh(t) for t in fs[0][2:]]), "geom": None, "egrid": None, "ggrid": None}
@@ -753,7 +784,7 @@ def oracle(c, impl, traj):
     st = steps_of(c)
     tab, pend = [], []
     facts = {"deposits": 0, "projections": 0, "outside_steps": 0, "expansions": 0, "saves": 0, "wt_outside": 0,
-             "wrapped_steps": 0, "restarts": 0, "rebins": 0, "antipodal_steps": 0, "ebmeta_deposits": 0, "reloads": 0, "rebins_from_grids": 0}
+             "wrapped_steps": 0, "restarts": 0, "rebins": 0, "antipodal_steps": 0, "ebmeta_deposits": 0, "reloads": 0, "rebins_from_grids": 0, "bound_checks": 0, "bound_max_ratio": 0.0, "pmf_files": 0}
     restarted = False
     off_at_restart = []
     lingering = False      # after a restart without keepHills the hills near the edges stay listed until the next projection
@@ -770,6 +801,26 @@ def oracle(c, impl, traj):
                     facts["projections"] += 1
                 tab += pend
                 pend = []
+            continue
+        if e[0] == "pmf":
+            # the free-energy file: (max E - E) over the bins, E the sum of the tabulated hills at the bin centre, times
+            # (biasTemperature + T)/biasTemperature when well-tempered; named <prefix>[.<step>].pmf
+            k = facts["pmf_files"]
+            facts["pmf_files"] += 1
+            dumps = c.get("_pmf_dump") or []
+            geomp = prev_geom
+            idx = [[]]
+            for g in geomp:
+                idx = [i + [b] for i in idx for b in range(g[0])]
+            Eb = [esum(c, [[g[1] + v["w"] * (0.5 + b)] for v, g, b in zip(c["vars"], geomp, ix)], tab) for ix in idx]
+            scale = (c["bt"] + PMF_TEMP) / c["bt"] if c["wt"] else 1.0
+            exp_ = [(max(Eb) - t) * scale for t in Eb]
+            name = "c05p_%s%s.pmf" % (c["id"], (".%d" % st[n][0]) if c.get("pmf_keep") and n >= 0 else (".%d" % c["it0"] if c.get("pmf_keep") else ""))
+            if k >= len(dumps) or dumps[k][1] is None or not vec_close(dumps[k][1], exp_) :
+                return ("pmf:values", "free-energy file %d: %s, expected (max E - E)*%r over the tabulated hills: %s" % (
+                    k, dumps[k] if k < len(dumps) else None, scale, exp_), max(n, 0)), facts
+            if dumps[k][0] != name:
+                return ("pmf:file-name", "free-energy file %d is named %r, expected %r" % (k, dumps[k][0], name), max(n, 0)), facts
             continue
         if e[0] in ("restart", "rebin", "reload"):
             facts["restarts"] += 1
@@ -935,6 +986,17 @@ def oracle(c, impl, traj):
             else:
                 sig = "energy" if not close(im["E"], eE) else "force"
             return (sig, "step %d (it=%d, x=%s, %s the grid): %s" % (n, it, x, "inside" if ins else "outside", what), n), facts
+        if ins and c["use_grids"] and all(v["kind"] == 0 and not v["periodic"] for v in c["vars"]):
+            # C05_discretisation_energy: the returned energy against the analytic sum of all hills at the actual position
+            lipb = math.exp(-0.5) * sum(v["w"] / (2 * v["sigma"]) for v in c["vars"]) + math.exp(-11.5)
+            bound = sum(abs(h[1]) for h in tab) * lipb
+            dev = abs(im["E"] - esum(c, x, tab + pend))
+            facts["bound_checks"] += 1
+            if bound > 0:
+                facts["bound_max_ratio"] = max(facts["bound_max_ratio"], dev / bound)
+            if dev > bound * (1 + 1e-9) + 1e-12:
+                return ("discretisation:bound-exceeded", "step %d (it=%d, x=%s): energy %r differs from the analytic sum of all hills %r by "
+                        "more than sum|W| * (exp(-1/2) sum w/(2 sigma) + exp(-23/2)) = %r" % (n, it, x, im["E"], esum(c, x, tab + pend), bound), n), facts
         if im.get("bias") != im["E"] or im["af"] != im["F"]:
             return ("applied:bias-output", "step %d: bias energy/applied force reported by the module (%r, %s) differ from "
                     "the bias's own (%r, %s)" % (n, im.get("bias"), im["af"], im["E"], im["F"]), n), facts
@@ -951,7 +1013,7 @@ def _var(lower=0.0, nx=8, w=1.0, sigma=1.0, expand=False, **kw):
 
 def _cfg(cid, vars_, events, **kw):
     c = {"id": cid, "vars": vars_, "use_grids": True, "sig_mode": False, "hw": 2.0, "W": 1.0, "freq": 1,
-         "keep": False, "wt": False, "bt": 300.0, "stepzero": False, "gfreq_explicit": False, "gfreq": 1, "it0": 0, "eb": None,
+         "keep": False, "wt": False, "bt": 300.0, "stepzero": False, "gfreq_explicit": False, "gfreq": 1, "it0": 0, "eb": None, "pmf": False, "pmf_keep": False,
          "events": [("step", False, list(z)) if not isinstance(z, (str, tuple)) else ((z,) if isinstance(z, str) else z) for z in events]}
     c.update(kw)
     if not c["gfreq_explicit"]:
@@ -1003,6 +1065,10 @@ def witnesses():
         # ebMeta with the default ebMetaEquilSteps 0 and a hill at step 0 (stepZeroData)
         _cfg("w_ebmeta_step0", [_var()], [[3.5], [3.5], [2.5]], stepzero=True,
              eb={"raw": [1.0, 2.0, 4.0, 8.0, 8.0, 4.0, 2.0, 1.0], "equil": 0}),
+        # the free-energy file: plain, and well-tempered with keepFreeEnergyFiles; a hill not yet tabulated is not in it
+        _cfg("w_pmf", [_var()], [[3.5], [3.5], [5.25], "pmf", [1.5], "pmf"], pmf=True),
+        _cfg("w_pmf_wt", [_var(), _var(nx=4, w=2.0, sigma=2.0)], [[3.5, 4.5], [3.5, 4.5], [5.25, 1.0], "pmf", [1.5, 7.0], "pmf", [1.5, 7.0], "pmf"],
+             pmf=True, pmf_keep=True, wt=True, gfreq_explicit=True, gfreq=2),
         # vector variables without grids
         _cfg("w_vec3", [_var(kind=1)], [[[1.0, 0.0, 0.5]], [[1.0, 0.25, 0.5]], [[0.5, 0.25, 0.5]], [[0.5, 0.5, 0.0]]], use_grids=False, wt=True),
         _cfg("w_quat", [_var(kind=3)], [[[1.0, 0.0, 0.0, 0.0, 1.0, 0.0, 0.0, 0.0, 1.0, -1.0, -1.0, -1.0]],
@@ -1080,8 +1146,10 @@ def check_one(run, c, impl, mo, txt, rcv, o, traj, mline):
     run.dist("unit_vector_vars", sum(1 for v in c["vars"] if v["kind"] == 2))
     run.dist("quaternion_vars", sum(1 for v in c["vars"] if v["kind"] == 3))
     run.dist("steps", len(impl))
-    for kk in ("deposits", "projections", "outside_steps", "expansions", "saves", "wt_outside", "wrapped_steps", "restarts", "rebins", "antipodal_steps", "ebmeta_deposits", "reloads", "rebins_from_grids"):
+    for kk in ("deposits", "projections", "outside_steps", "expansions", "saves", "wt_outside", "wrapped_steps", "restarts", "rebins", "antipodal_steps", "ebmeta_deposits", "reloads", "rebins_from_grids", "bound_checks", "pmf_files"):
         run.dist(kk, facts[kk])
+    d_ = run.cov["distribution"]
+    d_["bound_max_ratio"] = max(d_.get("bound_max_ratio", 0.0), facts["bound_max_ratio"])
     if bad:
         sig, text, n = bad
         run.dist("oracle:" + sig)
@@ -1096,6 +1164,9 @@ def check_one(run, c, impl, mo, txt, rcv, o, traj, mline):
         if not dumps or any(not vec_close(t, tp) for t in dumps):
             run.violation("ebmeta:target-normalisation", "target distribution as used by ebMeta %s, expected (raw values raised to 1e-6 "
                           "of the maximum, normalised, times exp(entropy)) %s" % (dumps[:1], tp), replay_d)
+    mp, ip = c.get("_model_pmf") or [], [d_[1] for d_ in (c.get("_pmf_dump") or [])]
+    if len(mp) != len(ip) or any(not vec_close(a, b) for a, b in zip(ip, mp)):
+        run.mismatch("pmf", dict(replay_d), ip[:2], mp[:2])
     mt, it_ = c.get("_model_traj"), c.get("_last_traj")
     if mt is not None and it_ is not None:
         if len(mt) != len(it_) or any(a[0] != b[0] or not close(a[1], b[1], 1e-9) or not centres_same(a[2], b[2], False) for a, b in zip(mt, it_)):
@@ -1177,9 +1248,9 @@ def check(run):
     d = V.scratch("C05")
     cs = corpus_cases()
     cs += witnesses()
-    n = 170 if quick else 4000
+    n = 150 if quick else 4000
     cs += [gen_scn(r, k) for k in range(n)]
-    cs += [gen_scn(r, "f%d" % k, REBIN_FOCUS) for k in range(24 if quick else 600)]
+    cs += [gen_scn(r, "f%d" % k, REBIN_FOCUS) for k in range(20 if quick else 600)]
     nsample = 0
     for (c, impl, mo, txt, rcv, o, traj, mline) in run_scenarios(run, exe, model, cs, d):
         check_one(run, c, impl, mo, txt, rcv, o, traj, mline)
